@@ -65,6 +65,7 @@ def generate(seed, tier):
         p_bool=0, p_err=0, p_frac=0 if circ else .1, depth=sw.pick([1, 2]),
         w_if=sw.pick([0, 2]), w_iferror=sw.pick([0, 1]),
         p_back=.3 if circ else 0, w_iserror=0, p_alias=.25, p_arrlit=.06,
+        p_refop=0 if circ else sw.pick([0, 0, .1]),
     )
     world = gen_world(rng, prof)
     if sw.chance(.35):
